@@ -100,7 +100,9 @@ def dims(ctx):
     return [("sel", SELS), ("version", VERSIONS), ("code", [0, 1, 2]), ("custkey", [False, True]),
             ("shape", SHAPES), ("extrakey", [None] + list(range(2 if ctx.quick else 16))), ("sink", ["stream", "path"]),
             # a second ECC key pair with ANOTHER selector placed first in the caller's lists: blocks are matched by selector, not by position
-            ("decoy", [True, False])]
+            ("decoy", [True, False]),
+            # the parameter is declared Iterable[Encryptor]: a one-shot iterator must serve every block of the file like a list does
+            ("encform", ["list", "iter"])]
 
 
 def dec_subsets(order):
@@ -319,30 +321,31 @@ def run_case(ctx, case):
     objs = {nm: mk(nm) for nm in ("cust", "ecc", "upd")}
     mk = lambda nm: objs[nm]
     decoy = [EccDecryptor((sel + 1) % 4, FX.priv_key(FX.ecc_scalar(ctx, 4)))] if d["decoy"] else []
+    form = (lambda lst: iter(list(lst))) if d["encform"] == "iter" else (lambda lst: list(lst))
     import os as _os
     path = _os.path.join(shapes.tmpdir(), "c02.bec2") if d["sink"] == "path" else None
     try:
         with DetRandom("c02-%r" % (case,), preset=preset):
             if path:
-                bec.write_file(path, decoy + [mk("cust"), mk("ecc")])      # file path: written with CRLF line ends
+                bec.write_file(path, form(decoy + [mk("cust"), mk("ecc")]))      # file path: written with CRLF line ends
                 with open(path, "r", newline="") as fh:
                     text = fh.read()
             else:
-                bec.write_file(s, decoy + [mk("cust"), mk("ecc")])
+                bec.write_file(s, form(decoy + [mk("cust"), mk("ecc")]))
                 text = s.getvalue()
     except Exception as e:
         o.cls = "write-raises"
         return o.viol("write|raises|%s" % type(e).__name__, "writing raised %r (key class %s, blocks %r)" % (e, name, order))
     try:
         if path:
-            r = Bec2File.read_file(path, decoy + [mk(n) for n in decs])
+            r = Bec2File.read_file(path, form(decoy + [mk(n) for n in decs]))
             # the same on-disk text (CRLF line ends) through a stream that does not translate line ends
             rc = Bec2File.read_file(io.StringIO(text), decoy + [mk(n) for n in decs])
             if rc.session_key != r.session_key or FX.view(rc.bf3file) != FX.view(r.bf3file):
                 o.viol("read|path-text-via-stream-differs", "the text written to a path reads differently through a stream")
             text = text.replace("\r\n", "\n")
         else:
-            r = Bec2File.read_file(io.StringIO(text), decoy + [mk(n) for n in decs])
+            r = Bec2File.read_file(io.StringIO(text), form(decoy + [mk(n) for n in decs]))
     except Exception as e:
         o.cls = "read-raises"
         return o.viol("read|raises|%s|%s" % (type(e).__name__, name if ki > 1 and d["extrakey"] is None else "anykey"),
